@@ -25,7 +25,18 @@
 //!     cell 0, and the features that inject events at (0,0) - defchordsv2 activation / release, the
 //!     fake presses of macros / sequences / one-shot, a device that really emits code 0 - never
 //!     perform it: no extra output, no layer change. Cell 0 of every layer is also inspected in
-//!     the configurations of parts (4) and (6).
+//!     the configurations of parts (4) and (6);
+//! (8) a deflocalkeys-linux name that coincides with a built-in key name (`z 21`, `y 44`, `< 41`,
+//!     `lsft 30`, `; 39` ...) denotes the configured number at every site, and the names that were
+//!     not redefined keep their built-in code (c11_local.rs): every pinned key name x 2 codes on the
+//!     parsed configuration (str_to_oscode, defsrc, action, deflayermap input, fork, switch key /
+//!     key-history / input, unmod, S- prefix, multi, tap-hold, one-shot, defvar, release-key, macro,
+//!     defoverrides in / out, all-except, bystander names), every pinned key name x 15 single-site
+//!     configurations on a real Kanata driven with the bound physical code (also tap-hold key lists,
+//!     defchordsv2 participants, defseq keys, caps-word-custom lists) against the same configuration
+//!     with a brand-new name, and seeded blocks of 1-4 redefined names (swaps, rotations, two
+//!     names for one code). The random mapped-set configurations of part (4) also bind built-in
+//!     names to other codes and write them in defsrc / all-except / deflayermap inputs.
 
 #[path = "c11_ref.rs"]
 mod refs;
@@ -33,6 +44,8 @@ mod refs;
 mod paths;
 #[path = "c11_cell0.rs"]
 mod cell0;
+#[path = "c11_local.rs"]
+mod local;
 
 use crate::core::rng::Rng;
 use crate::core::sim::{render_hist, Ev, OutKind, Sim};
@@ -123,7 +136,7 @@ fn extract_names(src: &str) -> Vec<(String, String)> {
     let mut out = vec![];
     let Some(f) = src.find("pub fn str_to_oscode") else { return out };
     let body = &src[f..];
-    let (Some(a), Some(b)) = (body.find("Some(match s {"), body.find("_ => return None")) else { return out };
+    let (Some(a), Some(b)) = (body.find("Some(match s {"), body.find("_ => return")) else { return out };
     let mut cfg_attr: Option<String> = None;
     for line in body[a..b].lines().skip(1) {
         let t = line.trim();
@@ -663,6 +676,10 @@ struct MapCase {
     cfg: String,
     expected: BTreeSet<u16>,
     class: String,
+    /// deflocalkeys-linux entries whose name is a built-in key name
+    builtin_named: u64,
+    /// how many times such a name is written in defsrc / all-except / deflayermap inputs
+    redefined_used: u64,
 }
 
 fn make_mapped(ctx: &Ctx, r: u64) -> MapCase {
@@ -675,28 +692,47 @@ fn make_mapped(ctx: &Ctx, r: u64) -> MapCase {
         }
     }
     let codes: Vec<u16> = by_code.keys().copied().collect();
-    let local: Vec<(String, u16)> = (0..rng.usize(4)).map(|_| loop {
-        let c = rng.range(1, 748) as u16;
-        if OsCode::from_u16(c).is_some() && !by_code.contains_key(&c) && c != 240 {
-            break (format!("zz{c}"), c);
+    // local keys: brand-new names, and built-in names bound to another code (`z 21`): from then on
+    // the name denotes the configured number wherever it is written
+    let mut local: Vec<(String, u16)> = vec![];
+    let mut n_builtin_named = 0;
+    for _ in 0..rng.usize(4) {
+        let c = loop {
+            let c = rng.range(1, 748) as u16;
+            let named_ok = rng.chance(1, 3);
+            if OsCode::from_u16(c).is_some() && (named_ok || !by_code.contains_key(&c)) && c != 240 {
+                break c;
+            }
+        };
+        if local.iter().any(|x| x.1 == c) {
+            continue;
         }
-    }).collect();
+        if rng.coin() {
+            let (n, b) = *rng.pick(refs::KEY_NAMES);
+            if b != c && !local.iter().any(|x| x.0 == n) {
+                local.push((n.to_string(), c));
+                n_builtin_named += 1;
+            }
+        } else {
+            local.push((format!("zz{c}"), c));
+        }
+    }
+    let denote = |name: &str, builtin: u16| -> u16 { local.iter().find(|x| x.0 == name).map(|x| x.1).unwrap_or(builtin) };
     let pick_key = |rng: &mut Rng| -> (String, u16) {
-        if !local.is_empty() && rng.chance(1, 5) {
+        if !local.is_empty() && rng.chance(1, 4) {
             rng.pick(&local).clone()
         } else {
             let c = *rng.pick(&codes);
-            (rng.pick(&by_code[&c]).to_string(), c)
+            let n = rng.pick(&by_code[&c]).to_string();
+            let c = denote(&n, c);
+            (n, c)
         }
     };
     let mut s = String::new();
     if !local.is_empty() {
         s.push_str("(deflocalkeys-linux");
-        let mut seen = BTreeSet::new();
         for (n, c) in &local {
-            if seen.insert(*c) {
-                s.push_str(&format!(" {n} {c}"));
-            }
+            s.push_str(&format!(" {n} {c}"));
         }
         s.push_str(")\n");
     }
@@ -750,6 +786,7 @@ fn make_mapped(ctx: &Ctx, r: u64) -> MapCase {
     // layers
     let nl = rng.range(1, 3);
     let mut n_inputs = 0;
+    let mut inputs_written: Vec<(String, u16)> = vec![];
     for li in 0..nl {
         if rng.coin() {
             s.push_str(&format!("(deflayer l{li}"));
@@ -770,6 +807,7 @@ fn make_mapped(ctx: &Ctx, r: u64) -> MapCase {
                 ins.push(k.1);
                 s.push_str(&format!(" {} {}", k.0, *rng.pick(&["a", "XX", "(layer-while-held l0)", "lctl"])));
                 expected.insert(k.1);
+                inputs_written.push(k.clone());
                 n_inputs += 1;
             }
             match rng.usize(6) {
@@ -788,7 +826,14 @@ fn make_mapped(ctx: &Ctx, r: u64) -> MapCase {
             }
         }
     }
-    MapCase { cfg: s, expected, class: format!("map:pu{}:src{}:in{}:exc{}:loc{}", pu.min(2), nsrc, n_inputs, exc.len(), local.len()) }
+    // how often a redefined built-in name is actually written in this configuration
+    let mut redefined_used = 0u64;
+    for (n, _) in src.iter().chain(exc.iter()).chain(inputs_written.iter()) {
+        if local.iter().any(|x| &x.0 == n && !x.0.starts_with("zz")) {
+            redefined_used += 1;
+        }
+    }
+    MapCase { cfg: s, expected, class: format!("map:pu{}:src{}:in{}:exc{}:loc{}:bn{}", pu.min(2), nsrc, n_inputs, exc.len(), local.len(), n_builtin_named), builtin_named: n_builtin_named, redefined_used }
 }
 
 /// codes whose membership in the "all known keys" part the statement does not decide
@@ -808,6 +853,8 @@ fn run_mapped(out: &mut CaseOut, ctx: &Ctx, r: u64) {
     };
     out.inc("mapped_configs");
     out.tag(mc.class.clone());
+    out.count("mapped_local_keys_named_like_builtin_keys", mc.builtin_named);
+    out.count("mapped_redefined_builtin_names_written", mc.redefined_used);
     // index 0 of every layer is a no-op whatever the layer's entries and any-key entries are
     for (li, layer) in cfg.layout.b().layers.iter().enumerate() {
         out.inc("mapped_layer_cells0_inspected");
@@ -848,6 +895,7 @@ fn run_mapped(out: &mut CaseOut, ctx: &Ctx, r: u64) {
     if r % 300 == 2 {
         out.sample = Some(json!({"part": "mapped set", "config": mc.cfg, "mapped_keys": got.len()}));
     }
+    local::reset_names();
 }
 
 // ------------------------------------------------------------------ the check
@@ -867,7 +915,7 @@ impl Check for C11Check {
         "C11"
     }
     fn n_cases(&self, ctx: &Ctx) -> u64 {
-        n_stepper() + n_names() + 1 + n_mapped(ctx) + paths::n_nop_cases() + paths::n_ident_cases(ctx) + cell0::n_cases()
+        n_stepper() + n_names() + 1 + n_mapped(ctx) + paths::n_nop_cases() + paths::n_ident_cases(ctx) + cell0::n_cases() + local::n_cases(ctx)
     }
     fn describe(&self, ctx: &Ctx, idx: u64) -> Value {
         let (a, b) = (n_stepper(), n_names());
@@ -883,8 +931,10 @@ impl Check for C11Check {
             paths::describe_nop(idx - a - b - 1 - n_mapped(ctx))
         } else if idx < a + b + 1 + n_mapped(ctx) + paths::n_nop_cases() + paths::n_ident_cases(ctx) {
             paths::describe_ident(ctx, idx - a - b - 1 - n_mapped(ctx) - paths::n_nop_cases())
-        } else {
+        } else if idx < a + b + 1 + n_mapped(ctx) + paths::n_nop_cases() + paths::n_ident_cases(ctx) + cell0::n_cases() {
             cell0::describe(idx - a - b - 1 - n_mapped(ctx) - paths::n_nop_cases() - paths::n_ident_cases(ctx))
+        } else {
+            local::describe(ctx, idx - a - b - 1 - n_mapped(ctx) - paths::n_nop_cases() - paths::n_ident_cases(ctx) - cell0::n_cases())
         }
     }
     fn run_case(&self, ctx: &Ctx, idx: u64) -> CaseOut {
@@ -908,13 +958,15 @@ impl Check for C11Check {
             paths::run_nop(&mut out, ctx, idx - a - b - 1 - n_mapped(ctx));
         } else if idx < a + b + 1 + n_mapped(ctx) + paths::n_nop_cases() + paths::n_ident_cases(ctx) {
             paths::run_ident(&mut out, ctx, idx - a - b - 1 - n_mapped(ctx) - paths::n_nop_cases());
-        } else {
+        } else if idx < a + b + 1 + n_mapped(ctx) + paths::n_nop_cases() + paths::n_ident_cases(ctx) + cell0::n_cases() {
             cell0::run_case(&mut out, ctx, idx - a - b - 1 - n_mapped(ctx) - paths::n_nop_cases() - paths::n_ident_cases(ctx));
+        } else {
+            local::run_case(&mut out, ctx, idx - a - b - 1 - n_mapped(ctx) - paths::n_nop_cases() - paths::n_ident_cases(ctx) - cell0::n_cases());
         }
         out
     }
     fn rule(&self) -> String {
-        "Exhaustive and seed-independent: (1) every code 0..=766 that OsCode::from_u16 knows is pressed, auto-repeated twice by the OS while held (KeyValue::Repeat), and released in a real Kanata in six configurations (named via deflocalkeys-linux and mapped to itself in defsrc/deflayer; `_`; `use-defsrc`; not in defsrc with process-unmapped-keys yes; the transparent and the unmapped variant again with a layer-while-held active whose layer is transparent) and the OS stream must be press c / repeat c / repeat c / release c with the pinned KeyCode name of value c (nothing at all, also no repeat, for 0 and 0x2a4..=0x2ad; mouse-button events for 272..=276 and one scroll event for 745..=748, where repeat outputs are counted but not judged); (2) every string literal of str_to_oscode and of its default-mapping table, extracted at run time from the current parser/src/keys/mod.rs, must denote its pinned code through str_to_oscode, in defsrc, as a layer action, as a deflayermap input, as fork trigger, as switch key / key-history / input item (each one-case switch evaluated for all 749 codes), in unmod, and on both sides of defoverrides; (3) for every code: from_u16/as_u16 round trip, u16::from(osc) == KeyCode::from(osc) as u16, reverse conversion, Debug names of both sides equal to pinned tables (OsCode names cross-checked with the kernel's input-event-codes.h), plus the enum declarations parsed from the current sources: same discriminant sets, no duplicate, every (variant, value) as pinned. Random: (4) configurations with random defsrc subsets, deflayermap inputs (also overlapping defsrc / excepted keys, with _ / __ / ___), process-unmapped-keys no | yes | (all-except ...), optional deflocalkeys; Cfg.mapped_keys must equal the set computed from that description. (5) Systematic, seed-independent scenarios plus seeded random histories: 134 small configurations in 41 families type a key K on every path that writes keys to the OS - sequences in the three input modes (mode from defcfg and from the (sequence t mode) leader; K first / second / third in the sequence; completed, cancelled by a foreign key, cancelled by the timeout, cancelled by K itself, K held and auto-repeated over the cancel, S-K, leader and K typed by one macro, virtual key whose macro types K), macro / macro-release-cancel / macro-cancel-on-press / macro-repeat, dynamic macro record + replay, zippychord with K pressed among the chord keys and with K as output-character-mapping (plain, S-, no-erase, single-output), unmod / unshift, defoverrides outputs (also with a modifier), one-shot / one-shot-release, defchords and defchordsv2, four tap-hold kinds, tap-dance / tap-dance-eager, fork / switch / multi, S- C-A- RA- prefixes, rpt / rpt-any, virtual keys through on-press / on-release / hold-for-duration and the direct fake-key operations, caps-word / caps-word-custom, held and switched layers; OS auto-repeats are part of the histories. Every scenario runs with K = nop0..nop9 (designed history + 6 / 200 random histories per key) and once with K = f24 (control). Judged: the raw OS stream (also redundant releases) of a nop run contains no press, repeat, release or raw-code event of 0x2a4..=0x2ad. The control run is only counted (did f24 reach the OS through this family?). (6) Exhaustive over the enumerated space: for 4 (quick) / 12 (thorough) codes x delegate-to-first-layer {no,yes} x transparent-key-resolution {absent,to-base-layer,layer-stack} x block-unmapped-keys {no,yes} x process-unmapped-keys {no,yes,(all-except f24)} x key in defsrc or not x first layer {deflayer: x, XX, _, the key, use-defsrc, (multi lctl x), (tap-hold ..); deflayermap: x, use-defsrc, key absent} x upper layer maps the key by {deflayer use-defsrc, deflayermap explicit use-defsrc, `_`, `__`, `___` wildcard use-defsrc, explicit transparent in deflayer / deflayermap above an identity} x activation {layer-while-held, layer-switch, transparent held layer over the switched layer, the first layer itself} (combinations the language rejects or in which the key is not intercepted are skipped; ~20 800 configurations in quick; two cases per (code, option combination) so that first layers that use use-defsrc themselves - which recurse without bound if the defsrc row is not the identity - cannot hide the others): press, two OS repeats, release must come out as press c / repeat c / repeat c / release c, nothing may stay held, and Layout.src_keys must be KeyCode(c) in column c (no-op in column 0 and for codes unknown to the OS layer). (7) Exhaustive over the enumerated space, plus seeded random histories: route by which cell (0,0) of a layer could be written {deflayermap `__ ACT`; `___ ACT`; `___ ACT` with a deflocalkeys-linux name bound to number 0 in defsrc; `_ ACT` with that name in defsrc; explicit deflayermap input `zz0 ACT` (name in defsrc or not); deflayer entry at the defsrc position of zz0} x ACT {f24, S-f24, (layer-switch mk), (layer-while-held mk), macro, (multi lalt f24), tap-hold, one-shot, alias, on-press tap-vkey, mlft, arbitrary-code, unicode: everything ACT can produce is a marker nothing else in the configuration produces} x the layer carrying the entry {first layer, held layer, switched-to layer, first and held layer} x process-unmapped-keys {no, yes, (all-except f22)} x block-unmapped-keys x delegate-to-first-layer x transparent-key-resolution {absent, to-base-layer, layer-stack} (combinations the language rejects skipped; 11 232 configurations). Every configuration has two defchordsv2 chords (all-released, first-release with a macro), a tap-hold-press, a one-shot, a macro and a sldr/defseq sequence on keys a..g that have entries of their own on every layer. Judged (a) on the parsed Cfg: cell [layer][0][0] of every layer and column 0 of the defsrc row are exactly NoOp (also in every accepted configuration of parts 4 and 6); (b) on a real Kanata, for 4 designed histories (chord activation with a key tapped while the chord is held and released; chord activation under a pending tap-hold, after a one-shot, first-release chord; macro + one-shot + sequence without any chord; press / OS repeat / release of code 0 itself where Cfg.mapped_keys contains it) and 2 (quick) / 30 (thorough) seeded random histories over the same keys (chord pairs, code 0, repeats), each wrapped in the activation of the layer and ending with a probe tap that shows the layer: no marker (F23/F24/LAlt key event, mouse button, raw code, unicode, scroll) reaches the OS, the OS stream including its timing equals that of the same configuration without the entry, the current and default layer at the end are the same, nothing stays held. Non-trivial = accepted configuration / code / name / scenario; distinct = code, name, mapped-set class, scenario family + variant, (code, option combination), (route, placement, option combination).".into()
+        "Exhaustive and seed-independent: (1) every code 0..=766 that OsCode::from_u16 knows is pressed, auto-repeated twice by the OS while held (KeyValue::Repeat), and released in a real Kanata in six configurations (named via deflocalkeys-linux and mapped to itself in defsrc/deflayer; `_`; `use-defsrc`; not in defsrc with process-unmapped-keys yes; the transparent and the unmapped variant again with a layer-while-held active whose layer is transparent) and the OS stream must be press c / repeat c / repeat c / release c with the pinned KeyCode name of value c (nothing at all, also no repeat, for 0 and 0x2a4..=0x2ad; mouse-button events for 272..=276 and one scroll event for 745..=748, where repeat outputs are counted but not judged); (2) every string literal of str_to_oscode and of its default-mapping table, extracted at run time from the current parser/src/keys/mod.rs, must denote its pinned code through str_to_oscode, in defsrc, as a layer action, as a deflayermap input, as fork trigger, as switch key / key-history / input item (each one-case switch evaluated for all 749 codes), in unmod, and on both sides of defoverrides; (3) for every code: from_u16/as_u16 round trip, u16::from(osc) == KeyCode::from(osc) as u16, reverse conversion, Debug names of both sides equal to pinned tables (OsCode names cross-checked with the kernel's input-event-codes.h), plus the enum declarations parsed from the current sources: same discriminant sets, no duplicate, every (variant, value) as pinned. Random: (4) configurations with random defsrc subsets, deflayermap inputs (also overlapping defsrc / excepted keys, with _ / __ / ___), process-unmapped-keys no | yes | (all-except ...), optional deflocalkeys-linux with brand-new names and with built-in names bound to other codes (a name then stands for its configured number in defsrc, in the exception list and as deflayermap input); Cfg.mapped_keys must equal the set computed from that description. (5) Systematic, seed-independent scenarios plus seeded random histories: 134 small configurations in 41 families type a key K on every path that writes keys to the OS - sequences in the three input modes (mode from defcfg and from the (sequence t mode) leader; K first / second / third in the sequence; completed, cancelled by a foreign key, cancelled by the timeout, cancelled by K itself, K held and auto-repeated over the cancel, S-K, leader and K typed by one macro, virtual key whose macro types K), macro / macro-release-cancel / macro-cancel-on-press / macro-repeat, dynamic macro record + replay, zippychord with K pressed among the chord keys and with K as output-character-mapping (plain, S-, no-erase, single-output), unmod / unshift, defoverrides outputs (also with a modifier), one-shot / one-shot-release, defchords and defchordsv2, four tap-hold kinds, tap-dance / tap-dance-eager, fork / switch / multi, S- C-A- RA- prefixes, rpt / rpt-any, virtual keys through on-press / on-release / hold-for-duration and the direct fake-key operations, caps-word / caps-word-custom, held and switched layers; OS auto-repeats are part of the histories. Every scenario runs with K = nop0..nop9 (designed history + 6 / 200 random histories per key) and once with K = f24 (control). Judged: the raw OS stream (also redundant releases) of a nop run contains no press, repeat, release or raw-code event of 0x2a4..=0x2ad. The control run is only counted (did f24 reach the OS through this family?). (6) Exhaustive over the enumerated space: for 4 (quick) / 12 (thorough) codes x delegate-to-first-layer {no,yes} x transparent-key-resolution {absent,to-base-layer,layer-stack} x block-unmapped-keys {no,yes} x process-unmapped-keys {no,yes,(all-except f24)} x key in defsrc or not x first layer {deflayer: x, XX, _, the key, use-defsrc, (multi lctl x), (tap-hold ..); deflayermap: x, use-defsrc, key absent} x upper layer maps the key by {deflayer use-defsrc, deflayermap explicit use-defsrc, `_`, `__`, `___` wildcard use-defsrc, explicit transparent in deflayer / deflayermap above an identity} x activation {layer-while-held, layer-switch, transparent held layer over the switched layer, the first layer itself} (combinations the language rejects or in which the key is not intercepted are skipped; ~20 800 configurations in quick; two cases per (code, option combination) so that first layers that use use-defsrc themselves - which recurse without bound if the defsrc row is not the identity - cannot hide the others): press, two OS repeats, release must come out as press c / repeat c / repeat c / release c, nothing may stay held, and Layout.src_keys must be KeyCode(c) in column c (no-op in column 0 and for codes unknown to the OS layer). (7) Exhaustive over the enumerated space, plus seeded random histories: route by which cell (0,0) of a layer could be written {deflayermap `__ ACT`; `___ ACT`; `___ ACT` with a deflocalkeys-linux name bound to number 0 in defsrc; `_ ACT` with that name in defsrc; explicit deflayermap input `zz0 ACT` (name in defsrc or not); deflayer entry at the defsrc position of zz0} x ACT {f24, S-f24, (layer-switch mk), (layer-while-held mk), macro, (multi lalt f24), tap-hold, one-shot, alias, on-press tap-vkey, mlft, arbitrary-code, unicode: everything ACT can produce is a marker nothing else in the configuration produces} x the layer carrying the entry {first layer, held layer, switched-to layer, first and held layer} x process-unmapped-keys {no, yes, (all-except f22)} x block-unmapped-keys x delegate-to-first-layer x transparent-key-resolution {absent, to-base-layer, layer-stack} (combinations the language rejects skipped; 11 232 configurations). Every configuration has two defchordsv2 chords (all-released, first-release with a macro), a tap-hold-press, a one-shot, a macro and a sldr/defseq sequence on keys a..g that have entries of their own on every layer. Judged (a) on the parsed Cfg: cell [layer][0][0] of every layer and column 0 of the defsrc row are exactly NoOp (also in every accepted configuration of parts 4 and 6); (b) on a real Kanata, for 4 designed histories (chord activation with a key tapped while the chord is held and released; chord activation under a pending tap-hold, after a one-shot, first-release chord; macro + one-shot + sequence without any chord; press / OS repeat / release of code 0 itself where Cfg.mapped_keys contains it) and 2 (quick) / 30 (thorough) seeded random histories over the same keys (chord pairs, code 0, repeats), each wrapped in the activation of the layer and ending with a probe tap that shows the layer: no marker (F23/F24/LAlt key event, mouse button, raw code, unicode, scroll) reaches the OS, the OS stream including its timing equals that of the same configuration without the entry, the current and default layer at the end are the same, nothing stays held. (8) Systematic and seed-independent, plus seeded blocks: the denotation of a key name is the number given for it in deflocalkeys-linux if it is listed there, else its pinned built-in code - also when the listed name is one of the built-in names. (a) For every pinned key name N (526) x 2 target codes c != built-in(N) (one code that has built-in names of its own, one that has none; not 0, 240 or the code of KeyCode::ErrorRollOver) one configuration with (deflocalkeys-linux N c) is parsed and N must denote c through str_to_oscode, in defsrc (Cfg.mapped_keys is exactly {c} + the helper inputs), as layer action at coordinate c, as deflayermap input, fork trigger, switch key / key-history / input item (each evaluated for all 749 codes), in unmod, behind S-, inside multi / tap-hold / one-shot / release-key / macro, through a defvar, on both sides of defoverrides, and in process-unmapped-keys (all-except N) (all known keys minus c, so built-in(N) stays intercepted); in the same configuration a deflayermap layer written with another built-in name of built-in(N), a built-in name of c, an unrelated built-in name and the other entries of the block must have its entries exactly at those names' own codes. Sites the language reads differently are skipped and counted: action positions for the mouse action keywords, macro for the digit names (a delay), S- for names that themselves start with a modifier prefix symbol. (b) For every pinned key name x 1 (quick) / 3 (thorough) plain target codes (ordinary key, no modifier) 15 single-site configurations run on a real Kanata with the physical code c: defsrc identity (press, OS repeat, release), deflayermap input, (macro N), S-N, tap-hold-release-keys and tap-hold-except-keys key list (early tap by c while the tap-hold waits), defchordsv2 participant, defseq key, caps-word-custom shifted list, fork trigger, switch key, switch (input real N), defoverrides input, unmod, one-shot. Judged: the site reacts to c as the guide describes for the feature (marker key / the key itself appears), and the OS stream including timing equals the stream of the same configuration with N replaced by a brand-new name bound to c. (c) Seeded: 450 (quick) / 7 500 (thorough) deflocalkeys-linux blocks with 1-4 redefined built-in names - swap of two names (z<->y), rotation of three, independent entries (optionally with a brand-new name among them), two names for one code - every entry judged as in (a) with the other entries as bystanders, and all entries together in one defsrc mapped to themselves on a real Kanata (press c_i -> key c_i). Part 4's generator binds built-in names to other codes in about half of its deflocalkeys entries. Non-trivial = accepted configuration / code / name / scenario; distinct = code, name, mapped-set class, scenario family + variant, (code, option combination), (route, placement, option combination), redefined name, (block kind, size).".into()
     }
     fn assumptions(&self) -> Vec<String> {
         vec![
@@ -926,6 +978,7 @@ impl Check for C11Check {
             "part 5 judges only the absence of OS events for the reserved codes; what else a scenario types (backspaces, the other keys) belongs to the properties of the respective feature. `(arbitrary-code n)` writes the number the user asked for and is not part of the scenarios; cmd-output-keys (feature `cmd`) and live reload are not reachable in this build / stepper. The control key (f24) is only counted: in the hidden-suppressed cancellation families and in one-shot it legitimately never reaches the OS".into(),
             "part 5: a zippychord output character mapped to a nop key (output-character-mappings) may be refused by the parser (it was typed with the unfiltered writer before the repair recorded in known_findings.json); the f24 control of that family must be accepted and reach the OS".into(),
             "part 7: the expected OS stream is the one the same tree produces for the same configuration without the entry (a relation, not a model): the histories press only keys that have entries of their own on every layer (and code 0), so the any-key entry stands for no key that was pressed and removing it must not change anything; what those keys, chords, macros, sequences themselves emit is the subject of the properties of those features. The absolute clause (no marker output, no change of layer) does not depend on that reference. 'No-op' in the inspection means the cell is exactly Action::NoOp (a transparent or use-defsrc cell would be resolved through other layers). Events of code 0 itself are only sent where Cfg.mapped_keys contains code 0 (counted: cell0_code0_not_intercepted_history_skipped otherwise). The fake (0,0) presses that macros / sequences report to the one-shot tracker do not go through the layers in the current implementation; the scenarios are run and judged all the same".into(),
+            "part 8: docs/config.adoc calls a deflocalkeys name 'a key name of your choice that can be used in the rest of the configuration' and does not reserve the built-in names; a chosen name that coincides with a built-in one is therefore read as denoting the configured number everywhere (the unchanged tree looks the configured names up first). What is NOT judged: how a key name that the language also reads as something else behaves at the ambiguous site (mouse action keywords as actions, digits inside macro, names beginning with a modifier-prefix symbol behind S-) - those sites are skipped and counted; deflocalkeys variants of other platforms; names inside files read by other features (zippychord dictionary) and the Linux unicode typing helper (they are not 'the rest of the configuration'). Target codes exclude 0, 240 and the code of KeyCode::ErrorRollOver (251: it doubles as the O- marker of sequences, so `S-dnd` / `S-<any name for 251>` is refused whatever the name is - observed on the unchanged tree, unrelated to deflocalkeys). The real-Kanata runs compare with the same configuration under a brand-new name (a relation) and additionally require the documented reaction of the feature to the bound code; what else the feature emits belongs to that feature's property. The parser keeps the configured names in a process-global table; the harness restores the defaults after every case of parts 4 and 8 so that histories written with key names are not affected".into(),
             "part 6: with transparent-key-resolution to-base-layer AND delegate-to-first-layer yes the guide does not decide whether a transparent key of a held layer resolves to the switched layer below it or to the first layer, so the held-transparent-over-switched activation is skipped for that option pair; a transparent upper key is judged only above a first layer that is itself the identity at that position (what lies below a transparent key otherwise is C04's subject); key codes: letters, a modifier, a function key and codes that have no name (via deflocalkeys-linux), not the mouse pseudo keys or nop keys (their identity is part 1)".into(),
         ]
     }
@@ -955,6 +1008,8 @@ impl Check for C11Check {
             ("mapped_small_sets", 300),
             ("mapped_process_unmapped_sets", 500),
             ("mapped_layer_cells0_inspected", 5_000),
+            ("mapped_local_keys_named_like_builtin_keys", 3_000),
+            ("mapped_redefined_builtin_names_written", 2_000),
         ];
         let q = _ctx.tier == crate::core::Tier::Quick;
         v.extend([
@@ -994,6 +1049,7 @@ impl Check for C11Check {
         ]);
         v.extend(paths::nop_family_floors());
         v.extend(cell0::floors(_ctx));
+        v.extend(local::floors(_ctx));
         v
     }
     fn exhaustive(&self, _ctx: &Ctx) -> bool {
